@@ -124,10 +124,11 @@ def gen_ctx_consts():
 # ------------------------------------------------------------------------------------------------
 NAME_ID = {"file": 1, "apps": 2, "modules": 3, "scripts": 4, "__init__": 5, "__all__": 900, "_u": 901, "_v": 902}
 _POOLS = {
-    10: ["a", "b", "c", "s1", "m1", "m2", "pkg", "sib", "other", "app1", "app2", "helper"],
-    100: ["g", "h", "k", "cnt", "x", "y", "z", "r", "e1", "e2", "last", "cx", "cy"],
-    200: ["bump", "setg", "get", "boom", "chain", "loc", "early", "tsk", "tf", "tg", "f1", "f2", "f3", "imp"],
+    10: ["a", "b", "c", "s1", "m1", "m2", "pkg", "sib", "other", "app1", "app2", "helper", "m3"],
+    100: ["g", "h", "k", "cnt", "x", "y", "z", "r", "e1", "e2", "last", "cx", "cy", "thresh"],
+    200: ["bump", "setg", "get", "boom", "chain", "loc", "early", "tsk", "tf", "tg", "f1", "f2", "f3", "imp", "inner", "slow", "quick"],
     250: ["q1", "q2"],          # functions defined as `def q(p):` (Interp/Ctx.v needs_arg)
+    260: ["w1", "w2"],          # user decorators `def w(f):` (Interp/Ctx.v is_deco)
     300: ["ma", "mb", "mc", "md", "lm", "t", "u", "fa", "fb", "fc", "fd"],
 }
 for _base, _names in _POOLS.items():
@@ -136,6 +137,7 @@ for _base, _names in _POOLS.items():
 
 
 QFUNCS = ("q1", "q2")
+WFUNCS = ("w1", "w2")
 LOCAL_ONLY = ["t", "u", "lm"]     # names the generator only ever uses as function locals
 
 
@@ -190,18 +192,40 @@ def ev_name(ctxname, f):
     return "pv_t_" + ctxname.replace(".", "_") + "_" + f
 
 
+def trig_decorators(trig, ctxname, f):
+    """trig = True (plain event trigger) or {"kind": event|state|active, "v": V, "g": global name}: the trigger expression
+    "V > g" is a string written in THIS file, so g must be read from this file's globals"""
+    ev = ev_name(ctxname, f)
+    if trig is True:
+        return [f'@event_trigger("{ev}")']
+    kind, g = trig["kind"], trig["g"]
+    if kind == "event":
+        return [f'@event_trigger("{ev}", "val > {g}")']
+    if kind == "active":
+        return [f'@event_trigger("{ev}")', f'@state_active("{trig["v"]} > {g}")']
+    if kind == "state":
+        return [f'@state_trigger("int(pyscript.{ev}) > {g}")']
+    raise ValueError(trig)
+
+
 def r_stmt(s, ind, ctxname):
     k = s[0]
     if k == "assign":
         return [f"{ind}{s[1]} = {r_expr(s[2])}"]
     if k == "attrassign":
         return [f"{ind}{s[1]}.{s[2]} = {r_expr(s[3])}"]
-    if k == "def":
-        _, f, gl, body, trig = s
+    if k in ("def", "defdeco"):
+        if k == "def":
+            _, f, gl, body, trig = s
+            deco = None
+        else:
+            _, f, deco, gl, body, trig = s
         out = []
         if trig:
-            out.append(f'{ind}@event_trigger("{ev_name(ctxname, f)}")')
-        out.append(f"{ind}def {f}(p):" if f in QFUNCS else f"{ind}def {f}(**kw):")
+            out += [ind + line for line in trig_decorators(trig, ctxname, f)]
+        if deco:
+            out.append(f"{ind}@{r_cref(deco)}")
+        out.append(f"{ind}def {f}(p):" if f in QFUNCS else f"{ind}def {f}(f):" if f in WFUNCS else f"{ind}def {f}(**kw):")
         if gl:
             out.append(f"{ind}    global " + ", ".join(gl))
             out += r_block(body, ind + "    ", ctxname) if body else []
@@ -233,6 +257,8 @@ def r_stmt(s, ind, ctxname):
         return [f"{ind}from {'.' * s[1]} import {r_items(s[2])}"]
     if k == "setctx":
         return [f'{ind}pyscript.set_global_ctx("{s[1]}")']
+    if k == "sleep":
+        return [f"{ind}task.sleep({s[1]})"]
     if k == "callbad":
         # an argument list that cannot be bound: extra positional for `def f(**kw)`, unexpected keyword (and missing p) for `def q(p)`
         c = s[1]
@@ -307,6 +333,10 @@ def c_stmt(s):
         return f"SSetCtx {qpath(s[1])}"
     if k == "callbad":
         return f"SCallBad {c_cref(s[1])}"
+    if k == "defdeco":
+        return f"SDefDeco {q.N(nid(s[1]))} {c_cref(s[2])} {q.lst(q.N(nid(x)) for x in s[3])} {c_block(s[4])}"
+    if k == "sleep":
+        return "SSleep"
     raise ValueError(s)
 
 
@@ -346,6 +376,8 @@ def has_stmt(prog, kind):
             return True
         if s[0] == "def" and has_stmt(s[3], kind):
             return True
+        if s[0] == "defdeco" and has_stmt(s[4], kind):
+            return True
         if s[0] == "if" and (has_stmt(s[2], kind) or has_stmt(s[3], kind)):
             return True
         if s[0] == "try" and (has_stmt(s[1], kind) or has_stmt(s[2], kind)):
@@ -368,9 +400,14 @@ def prepare(case):
         if has_stmt(f["prog"], "setctx"):
             use_oracle = False
     autoload.sort()
-    fires = [[c, f, ev_name(c, f)] for c, f in case["fires"]]
-    return {"legacy": case["legacy"], "files": files, "apps": case.get("apps", []), "fires": fires, "oracle": use_oracle,
-            "ctxmap": ctxmap, "load_order": [m for _c, m in autoload]}
+    fires = [[fr[0], fr[1], ev_name(fr[0], fr[1]), (fr[2] if len(fr) > 2 else {})] for fr in case["fires"]]
+    out = {"legacy": case["legacy"], "files": files, "apps": case.get("apps", []), "fires": fires, "oracle": use_oracle,
+           "ctxmap": ctxmap, "load_order": [m for _c, m in autoload]}
+    if case.get("reload"):
+        # the configuration is first started with the OLD sources of the edited files; then they are rewritten and pyscript.reload
+        # is called.  `files` (what the Model and the oracle run) are the sources after the edit.
+        out["before"] = {pth: render(prog, file_info(pth)["ctx"]) for pth, prog in case["reload"]["before"].items()}
+    return out
 
 
 def q_oval(v):
@@ -489,7 +526,7 @@ class Gen:
         return rng.sample(GLOBALS, n)
 
     # -- modules
-    def make_module(self, path, absname, importable, rel_imports=None, extra_top=None):
+    def make_module(self, path, absname, importable, rel_imports=None, extra_top=None, force=()):
         """importable: list of absolute module names this module may import (already generated)."""
         rng = self.rng
         ints = self.pick_ints()
@@ -499,7 +536,7 @@ class Gen:
             prog.append(st)
             callees += crefs
         for m in importable:
-            if rng.random() < 0.5:
+            if rng.random() < 0.5 or m in force:
                 st, crefs, _ = self.import_stmt(m, alias_pool=["ma", "mb"])
                 prog.append(st)
                 callees += crefs
@@ -549,7 +586,7 @@ class Gen:
         return ["star", shown, level], [["n", f] for f in ex["funcs"]], list(ex["funcs"]) + list(ex["ints"])
 
     # -- scripts and apps
-    def make_script(self, path, importable, rel_imports=None, setctx_targets=None):
+    def make_script(self, path, importable, rel_imports=None, setctx_targets=None, force=()):
         rng = self.rng
         info = file_info(path)
         ints = self.pick_ints()
@@ -561,7 +598,7 @@ class Gen:
         for st, crefs in (rel_imports or []):
             pending.append((st, crefs))
         for m in importable:
-            if rng.random() < 0.75:
+            if rng.random() < 0.75 or m in force:
                 st, crefs, _ = self.import_stmt(m, alias_pool=["ma", "mb", "mc", "md"])
                 if rng.random() < 0.15:
                     st = ["try", [st], [["assign", "e2", ["lit", 1]]]]
@@ -721,6 +758,141 @@ def gen_case(rng, with_setctx=False):
 NAME_ID.setdefault("nonexistent", 399)
 
 
+def _bump_literals(prog, delta):
+    """the edit of a reload scenario: every top-level integer initialisation gets another value"""
+    out = []
+    for st in prog:
+        if st[0] == "assign" and st[2][0] == "lit":
+            out.append(["assign", st[1], ["lit", st[2][1] + delta]])
+        else:
+            out.append(st)
+    return out
+
+
+def gen_reload_case(rng):
+    """import chain of depth 2-3 (m1 -> m2 -> m3, scripts importing different links of it); after the start the deepest module
+    is edited and pyscript.reload is called: every direct and indirect importer must be re-executed against ONE new instance, so
+    the final tables must be those of a fresh start on the edited sources (scripts importing nothing keep their state)."""
+    g = Gen(rng)
+    depth3 = rng.random() < 0.6
+    g.make_module("modules/m3.py", "m3", [])
+    g.make_module("modules/m2.py", "m2", ["m3"], force=("m3",))
+    chain = ["m3", "m2"]
+    if depth3:
+        g.make_module("modules/m1.py", "m1", ["m2"], force=("m2",))
+        chain.append("m1")
+    top = chain[-1]
+    names = rng.sample(["a.py", "b.py", "c.py", "scripts/s1.py"], rng.choice([2, 3, 3]))
+    for i, nm in enumerate(sorted(names)):
+        if i == 0:
+            g.make_script(nm, [top], force=(top,))                 # reaches m3 only through the chain
+        elif i == 1:
+            g.make_script(nm, ["m3"] + ([rng.choice(chain[1:])] if rng.random() < 0.4 else []), force=("m3",))
+        else:
+            g.make_script(nm, [], force=())                        # imports nothing: must not be touched by the reload
+    before = {}
+    for f in g.files:
+        if f["path"] == "modules/m3.py":
+            before[f["path"]] = f["prog"]
+            f["prog"] = _bump_literals(f["prog"], rng.choice([3, 7, 11]))
+    rng.shuffle(g.fires)
+    return {"legacy": rng.random() < 0.5, "files": g.files, "apps": [], "fires": g.fires, "reload": {"before": before}}
+
+
+def gen_deco_case(rng):
+    """trigger expressions (event filter / @state_active / @state_trigger strings) that read a global name defined differently
+    in several files, on a function wrapped by a user decorator imported from a module; plus an undecorated twin"""
+    lo, hi = rng.choice([(5, 100), (100, 5), (20, 60)])
+    files = []
+    mod_ints = rng.sample(GLOBALS, 2)
+    a, b = mod_ints
+    inner_body = [["assign", a, ["add", a, 1]], ["assign", b, ["add", "thresh", 1000]]]
+    if rng.random() < 0.3:
+        inner_body.append(["assign", "cx", ["ctx"]])
+    m1 = [["assign", "thresh", ["lit", hi]]] + [["assign", n, ["lit", rng.randint(0, 9)]] for n in mod_ints] + [
+        ["def", "w1", [], [["def", "inner", sorted({a, b, "cx"}), inner_body, False], ["return", ["name", "inner"]]], False]]
+    files.append({"path": "modules/m1.py", "prog": m1})
+    fires = []
+    scripts = rng.sample(["a.py", "b.py", "scripts/s1.py"], rng.choice([1, 2]))
+    for nm in sorted(scripts):
+        info = file_info(nm)
+        th = lo if nm == sorted(scripts)[0] else rng.choice([lo, hi, 50])
+        ints = rng.sample(GLOBALS, 2)
+        prog = [["assign", "thresh", ["lit", th]]] + [["assign", n, ["lit", rng.randint(0, 9)]] for n in ints]
+        if rng.random() < 0.5:
+            prog.append(["from", "m1", 0, [["w1", "w1"]]])
+            deco = ["n", "w1"]
+        else:
+            alias = rng.choice(["m1", "ma"])
+            prog.append(["import", "m1", alias])
+            deco = ["a", alias, "w1"]
+        for tname, wrapped in (("tf", True), ("tg", False)):
+            kind = rng.choice(["event", "active", "state"])
+            v = rng.choice([min(lo, hi) - 2, (lo + hi) // 2, max(lo, hi) + 3])
+            trig = {"kind": kind, "v": v, "g": "thresh"}
+            x = rng.choice(ints)
+            body = [["assign", x, ["add", x, 1]], ["assign", "y", ["add", "thresh", 2000]]]
+            if wrapped:
+                prog.append(["defdeco", tname, deco, [x, "y"], body, trig])
+            else:
+                prog.append(["def", tname, [x, "y"], body, trig])
+            fires.append([info["ctx"], tname, {"kind": kind, "v": v, "g": "thresh"}])
+        files.append({"path": nm, "prog": prog})
+    rng.shuffle(fires)
+    return {"legacy": rng.random() < 0.6, "files": files, "apps": [], "fires": fires}
+
+
+def gen_overlap_case(rng):
+    """two (or three) overlapping runs of one trigger function that call - and sleep inside - functions of another file; every
+    effect is an increment, so the final tables do not depend on the interleaving; gaps/sleeps are drawn so that both orders of
+    suspension occur (run 1 asleep in the module while run 2 is in the script's code, and the reverse)"""
+    S = [0.3, 0.5, 1.0, 1.5]
+    mints = rng.sample(GLOBALS, 3)
+
+    def incs(names, n):
+        return [["assign", x, ["add", x, rng.randint(1, 9)]] for x in (rng.choice(names) for _ in range(n))]
+
+    def with_gl(name, body):
+        gl = sorted({st[1] for st in body if st[0] == "assign"})
+        return ["def", name, gl, body, False]
+
+    slow = incs(mints, 1) + [["sleep", rng.choice(S)]] + incs(mints, 2) + ([["sleep", rng.choice(S)]] + incs(mints, 1) if rng.random() < 0.5 else [])
+    quick = incs(mints, 2)
+    m1 = [["assign", n, ["lit", rng.randint(0, 9)]] for n in GLOBALS] + [with_gl("slow", slow), with_gl("quick", quick)]
+    files = [{"path": "modules/m1.py", "prog": m1}]
+    fires = []
+    for nm in sorted(rng.sample(["a.py", "b.py"], rng.choice([1, 2]))):
+        info = file_info(nm)
+        prog = [["assign", n, ["lit", rng.randint(10, 19)]] for n in GLOBALS]
+        if rng.random() < 0.5:
+            prog.append(["import", "m1", "m1"])
+            cs, cq = ["a", "m1", "slow"], ["a", "m1", "quick"]
+        else:
+            prog.append(["from", "m1", 0, [["slow", "slow"], ["quick", "fa"]]])
+            cs, cq = ["n", "slow"], ["n", "fa"]
+        body = []
+        for _ in range(rng.randint(3, 6)):
+            r = rng.random()
+            if r < 0.35:
+                body += incs(GLOBALS, 1)
+            elif r < 0.6:
+                body.append(["call", None, cs])
+            elif r < 0.75:
+                body.append(["call", None, cq])
+            else:
+                body.append(["sleep", rng.choice(S)])
+        if not any(st == ["call", None, cs] for st in body):
+            body.insert(rng.randint(0, len(body)), ["call", None, cs])
+        body += incs(GLOBALS, 1)
+        prog.append(["def", "tf", sorted({st[1] for st in body if st[0] == "assign"}), body, True])
+        files.append({"path": nm, "prog": prog})
+        for _ in range(rng.choice([2, 2, 3])):
+            fires.append([info["ctx"], "tf", {"gap": rng.choice([0.2, 0.4, 0.8, 1.2, 2.0])}])
+    rng.shuffle(fires)
+    fires[-1][2]["gap"] = 30.0
+    return {"legacy": rng.random() < 0.4, "files": files, "apps": [], "fires": fires}
+
+
 def gen_setctx_case(rng):
     """pyscript.set_global_ctx executed at call depth 0..3 of a chain of functions of one file (started from module level, from
     a trigger or from a created task), followed on the way back by local and global reads/writes at every level"""
@@ -789,6 +961,8 @@ def _walk(prog, fn, in_def=None):
         k = s[0]
         if k == "def":
             _walk(s[3], fn, s[1])
+        elif k == "defdeco":
+            _walk(s[4], fn, s[1])
         elif k == "if":
             _walk(s[2], fn, in_def)
             _walk(s[3], fn, in_def)
@@ -908,13 +1082,23 @@ class CtxStream(Stream):
     shard_size = 25
 
     def budget(self, tier):
-        return 200 if tier == "quick" else 3000
+        return 180 if tier == "quick" else 3000
 
     def generate(self, ctx, budget, focus=None):
         rng = ctx.rng
         cases = fixed_cases()
         while len(cases) < budget:
-            c = gen_setctx_case(rng) if rng.random() < 0.15 else gen_case(rng, with_setctx=rng.random() < 0.08)
+            r = rng.random()
+            if r < 0.12:
+                c = gen_setctx_case(rng)
+            elif r < 0.24:
+                c = gen_reload_case(rng)
+            elif r < 0.36:
+                c = gen_deco_case(rng)
+            elif r < 0.46:
+                c = gen_overlap_case(rng)
+            else:
+                c = gen_case(rng, with_setctx=rng.random() < 0.08)
             if static_ok(c):
                 cases.append(c)
         return cases
@@ -942,7 +1126,13 @@ class CtxStream(Stream):
                 rel = q.option(qpath(info["relimp"].replace("/", ".")) if info["relimp"] else None)
                 auto.append((info["ctx"], f"OpLoad {qpath(info['ctx'])} {rel} {prog}"))
         auto.sort()
-        ops = [t for _c, t in auto] + [f"OpTrig {qpath(c)} {q.N(nid(f))}" for c, f in case["fires"]]
+        ops = [t for _c, t in auto]
+        for fr in case["fires"]:
+            opts = fr[2] if len(fr) > 2 else {}
+            if opts.get("g"):
+                ops.append(f"OpTrigIf {qpath(fr[0])} {q.N(nid(fr[1]))} {q.N(nid(opts['g']))} {q.Z(opts['v'])}")
+            else:
+                ops.append(f"OpTrig {qpath(fr[0])} {q.N(nid(fr[1]))}")
         oracle = q.option(q_tables(obs["oracle"]) if obs.get("oracle") is not None else None)
         return "{| cc_fs := %s; cc_ops := %s; cc_obs := %s; cc_oracle := %s; cc_locals := %s |}" % (
             q.lst(fs), q.lst(ops), q_tables(obs["tables"]), oracle, q.lst(q.N(nid(x)) for x in LOCAL_ONLY))
@@ -965,9 +1155,11 @@ class CtxStream(Stream):
         lay = ("pkg" if any(p.startswith("modules/pkg") for p in paths) else "") + ("app" if case.get("apps") else "") + \
               ("flat" if any(p in ("modules/m1.py",) for p in paths) else "")
         tags = []
-        for kd in ("star", "fromdot", "task", "setctx"):
+        for kd in ("star", "fromdot", "task", "setctx", "defdeco", "sleep", "callbad"):
             if any(has_stmt(f["prog"], kd) for f in case["files"]):
                 tags.append(kd)
+        if case.get("reload"):
+            tags.append("reload")
         return f"{'legacy' if case['legacy'] else 'default'}/{lay or 'none'}/{len(paths)}files/{'+'.join(tags)}/fires{len(case['fires'])}"
 
     def describe(self, case, obs):
